@@ -31,6 +31,8 @@ CLASS_CHARS = {
     # forbidden, control / non-ASCII (Michelson strings are printable ASCII; letters and digits mean a-z A-Z 0-9)
     'newline': '\n', 'tab': '\t', 'eacute': 'é', 'cyrillic_a': 'а', 'arabic_three': '٣',
     'fullwidth_a': 'ａ', 'superscript_two': '²',
+    # letters outside ASCII that case-folding maps onto ASCII letters (dotless i, dotted I, long s, Kelvin sign): not letters of a view name
+    'casefold': '\u0131\u0130\u017f\u212a',
 }
 ALLOWED = ['lower', 'upper', 'digit', 'underscore', 'dot', 'percent', 'at']
 FORBIDDEN = [c for c in CLASS_CHARS if c not in ALLOWED]
@@ -258,7 +260,7 @@ ALL_LAMS = ['LAMBDA', 'LAMBDA_REC', 'PUSH', 'PUSHNEST']
 
 
 def run(ctx):
-    ctx.rule = ('names = a fill class with one special character class (7 allowed, 27 forbidden incl. range neighbours, control and non-ASCII) at the first / middle / last '
+    ctx.rule = ('names = a fill class with one special character class (7 allowed, 28 forbidden incl. range neighbours, control and non-ASCII) at the first / middle / last '
                 'position, lengths around the 31 limit; code trees over SELF / TRANSFER_TOKENS / CREATE_CONTRACT / SET_DELEGATE / a neutral instruction, containers with one '
                 'and two bodies, and the four kinds of lambda body, enumerated by TLC up to a node-count and depth bound; Leg A: the step-wise walk agrees with the '
                 'declarative property; Leg B: every (name, code) is built as Micheline and given to ViewSection.match; non-trivial = some clause of the property is '
